@@ -20,7 +20,7 @@ FUZZ_RUNS = {"thorough": 30000}     # coverage-guided leg, 8 processes (vlib/fuz
 ASSUMPTIONS = ["object vectors are generated only where str() order and natural order coincide "
                "(strings; one-digit non-negative ints) because the statement defines no order for objects"]
 
-KINDS = ["f", "f", "i", "i", "i", "b", "s", "s", "u", "d", "t", "tm", "ts", "td", "o", "oi", "y", "u8", "i8", "i32", "f32"]
+KINDS = ["f", "f", "i", "i", "i", "b", "s", "s", "u", "d", "t", "tm", "ts", "td", "o", "oi", "y", "u8", "i8", "i32", "f32", "tn"]
 
 
 @st.composite
